@@ -325,8 +325,8 @@ impl Check for C13Check {
 
     fn cases(&self, tier: Tier) -> u64 {
         match tier {
-            Tier::Quick => 96,
-            Tier::Thorough => 1_600,
+            Tier::Quick => 640,
+            Tier::Thorough => 12_000,
         }
     }
 
